@@ -51,7 +51,14 @@ def make(spec):
     top = Module()
     opts = {"clocks": ("write", "read"), "meta": True, "cds_from_input": _cds, "strip_input": _strip}
     if kind == "asyncfifo":
-        f = stream.AsyncFIFO(_layout(spec), spec.get("depth", 4), buffered=spec.get("buffered", False))
+        if spec.get("via") == "uart":
+            # the crossing FIFO the UART core builds between its CSR side and a PHY in another clock domain
+            # (litex/soc/cores/uart.py:_get_uart_fifo: AsyncFIFO of bytes renamed onto the two user domains)
+            from litex.soc.cores.uart import _get_uart_fifo
+            assert spec.get("dw", 8) == 8 and not spec.get("pw") and not spec.get("fl")
+            f = _get_uart_fifo(spec.get("depth", 4), sink_cd="write", source_cd="read")
+        else:
+            f = stream.AsyncFIFO(_layout(spec), spec.get("depth", 4), buffered=spec.get("buffered", False))
         top.submodules.f = f
         ti, to = _tok_io(top, f, spec)
         ins = [f.sink.valid, ti, f.source.ready]
